@@ -112,11 +112,11 @@ for _nm, _shape, _tier in (("2f", "1 record x 2 fields", "quick"), ("1f_pad3", "
                           ("1f_0f_1f", "3 records with 1,0,1 fields", "thorough"),
                           ("1f_trunc", "1 complete record + a record header announcing 9 fields with 2 bytes left", "quick"),
                           ("only_trunc", "no complete record: header announcing 9 fields + 1 byte", "thorough")):
-    reg(["C04", "C06", "C01"], H("s9::s_v9_template_" + _nm, unwind=5, loops=[(r"many0::<&\[u8\], u8", 9), (r"nfv2s9", 8)], timeout=1500, mem_gb=12, tier=_tier,
+    reg(["C04", "C06", "C01"], H("s9::s_v9_template_" + _nm, unwind=5, loops=[(r"many0::<&\[u8\], u8", 9), (r"nfv2s9", 8)], timeout=1800, mem_gb=30, mem_est=9, tier=_tier,
         desc="v9::FlowSet::parse, template flowset shape [%s] vs a symbolic one-entry cache: records as sent, padding, consumption, cache post-state (last wins, others untouched, incomplete record ignored)" % _shape,
         bounds={"shape": _shape + " (written)", "symbolic": "template ids, field types/lengths, padding bytes, cached entry, probe id"}))
 for _nm, _shape, _tier in (("1_1", "1 scope + 1 option field + 2 padding", "quick"), ("2_0", "2 scope fields", "thorough"), ("0_2", "2 option fields + 3 padding", "thorough")):
-    reg(["C04", "C06", "C01"], H("s9::s_v9_options_template_" + _nm, unwind=5, timeout=1500, mem_gb=12, tier=_tier,
+    reg(["C04", "C06", "C01"], H("s9::s_v9_options_template_" + _nm, unwind=5, timeout=1800, mem_gb=30, mem_est=6, tier=_tier,
         desc="v9::FlowSet::parse, options-template flowset shape [%s]: record as sent, padding, cached" % _shape,
         bounds={"shape": _shape + " (written)", "symbolic": "template id, field types/lengths, padding bytes"}))
 reg(["C04", "C06", "C07", "C01"], H("s9::s_v9_data_dispatch", unwind=9, timeout=1200, mem_gb=10,
@@ -196,14 +196,24 @@ reg(["C05"], H("d10::d_ipfix_varlen_second_shorter_kf", unwind=5, timeout=1200, 
 # ---------------------------------------------------------------- P: packets
 _S9 = "v9::FlowSet::parse replaced by a model exact on the domain 'empty caches; flowset id 0/1 with body < 4 bytes (no record fits, body = padding); other ids unknown => Err'; the model assumes that domain"
 _S10 = "ipfix::FlowSet::parse replaced by a model exact on the domain 'set id 2, length 12, one plain specifier with non-zero length (cached)' or 'set id > 255 unknown to the caches => Err'; the model assumes that domain"
-reg(["C02", "C04", "C07", "C11", "C14", "C01"], H("p::p_v9_packet", unwind=5, timeout=2400, mem_gb=30,
-    desc="V9::parse: header as sent, first `count` flowsets (or until the buffer ends), consumed = 20 + sum(max(length,4)), any failing flowset (unknown id, truncated) fails the packet",
-    bounds={"bytes": 36, "count": "<=3 (symbolic)", "flowset_lengths": "symbolic"}, assumptions=[_S9]))
-reg(["C02", "C05", "C07", "C11", "C14", "C01"], H("p::p_ipfix_message", unwind=5, timeout=2400, mem_gb=30,
-    desc="IPFix::parse: header as sent, window = max(length,16)-16, decodable sets reported in order, undecodable set omitted, length beyond buffer => Err before anything is learned",
-    bounds={"bytes": 44, "sets": "<=3", "length": "all u16"}, assumptions=[_S10, "remainder of C05-sets-after-undecodable-dropped: no decodable set follows an undecodable one"]))
-reg(["C05"], H("p::p_ipfix_sets_after_skipped_kf", unwind=5, timeout=2400, mem_gb=30, expect="fail", finding="C05-sets-after-undecodable-dropped",
-    desc="finding witness: a decodable set after an undecodable one is dropped", bounds={"bytes": 44}, assumptions=[_S10]))
+for _nm, _shape, _tier in (("two_sets_tail", "count 2: template flowset(6) + options-template flowset(7) + 5 trailing bytes", "quick"),
+                          ("count_gt_sets", "count 3, one flowset, buffer ends", "quick"),
+                          ("count_gt_sets_stray", "count 3, one flowset + 2 stray bytes", "quick"),
+                          ("unknown_second", "count 2: template flowset then data flowset for an undefined id", "quick"),
+                          ("truncated_second", "count 2: second flowset announces 40 bytes, 6 present", "thorough"),
+                          ("count0_tail", "count 0 + 6 trailing bytes", "thorough")):
+    reg(["C02", "C04", "C07", "C11", "C14", "C01"], H("p::p_v9_" + _nm, unwind=5, timeout=1800, mem_gb=24, mem_est=8, tier=_tier,
+        desc="V9::parse on [%s]: header as sent, first `count` flowsets (or until the buffer ends), consumed = 20 + sum(length), any failing flowset fails the packet" % _shape,
+        bounds={"shape": _shape + " (written)", "symbolic": "header words, padding bytes"}, assumptions=[_S9]))
+for _nm, _shape, _tier in (("two_templates_tail", "2 template sets + 3 bytes after the message", "quick"),
+                          ("template_then_unknown", "template set then data set for an undefined id", "quick"),
+                          ("truncated_after_template", "template set + data set, announced length 2 bytes beyond the buffer", "quick"),
+                          ("header_only_tail", "no set, 4 bytes after the message", "thorough")):
+    reg(["C02", "C05", "C07", "C11", "C14", "C01"], H("p::p_ipfix_" + _nm, unwind=5, timeout=1800, mem_gb=24, mem_est=8, tier=_tier,
+        desc="IPFix::parse on [%s]: header as sent, window = length-16, decodable sets reported in order, undecodable set omitted, length beyond buffer => Err before anything is learned" % _shape,
+        bounds={"shape": _shape + " (written)", "symbolic": "header words, template ids, field specifiers"}, assumptions=[_S10]))
+reg(["C05"], H("p::p_ipfix_sets_after_skipped_kf", unwind=5, timeout=1800, mem_gb=24, mem_est=8, expect="fail", finding="C05-sets-after-undecodable-dropped",
+    desc="finding witness: a decodable set after an undecodable one is dropped", bounds={"shape": "data set for an undefined id, then a template set"}, assumptions=[_S10]))
 
 
 # ---------------------------------------------------------------- serializers (C09, C10)
@@ -324,7 +334,7 @@ def all_harnesses():
 
 # quick tier overrides decided by measurement (see DESIGN section 8): harnesses that do not finish
 # within the quick budget run in the thorough tier only
-THOROUGH_ONLY = [r"^ser::", r"^cv::", r"^p::", r"^d10::", r"^e2e::", r"^d9::d_v9_two_fields",
+THOROUGH_ONLY = [r"^ser::", r"^cv::", r"^d10::", r"^e2e::", r"^d9::d_v9_two_fields",
                  r"^w::w_real_5_stray", r"^fixed::error_common", r"count_\d+$"]
 C01_QUICK = {"k::k_unsigned", "k::k_vec", "d9::d_v9_zero_size_template_1", "d9::d_v9_three_records", "s9::s_v9_template_1f_trunc",
              "s9::s_v9_data_dispatch", "s10::s_ipfix_data_dispatch", "w::w_real_9cut", "w::wr_ipfix_entry_22", "w::wr_v9_entry_c1_s3",
@@ -344,3 +354,6 @@ def harnesses_for(pid, tier, seed=0):
                 continue
             out.append(h)
     return out
+reg(["X"], H("x::x_entry_sorted", unwind=4, timeout=900, mem_gb=30, bytewise=256))
+reg(["X"], H("x::x_entry_unsorted", unwind=4, timeout=900, mem_gb=30))
+reg(["X"], H("x::x_insert_sorted", unwind=4, timeout=900, mem_gb=30))
